@@ -107,17 +107,23 @@ _real_gather = _at.gather
 GATHER_REVERSED = False
 
 
-def _sorted_gather(*aws, return_exceptions=False):
-    def key(a):
-        try:
-            return (0, a.get_name())
-        except AttributeError:
-            return (1, repr(type(a)))
+def _is_set_derived(a):
+    """Spawner ("meta") tasks reach gather() from sets; pool tasks ('<pool>_Task-<id>') from insertion-ordered dicts."""
+    try:
+        return "_Task-" not in a.get_name()
+    except AttributeError:
+        return False
 
-    return _real_gather(
-        *sorted(aws, key=key, reverse=GATHER_REVERSED),
-        return_exceptions=return_exceptions,
-    )
+
+def _sorted_gather(*aws, return_exceptions=False):
+    # keep the library's argument order except among the set-derived awaitables, whose mutual order depends on
+    # object addresses in the real program: those are put into a canonical order (by task name) in place
+    slots = [i for i, a in enumerate(aws) if _is_set_derived(a)]
+    ordered = sorted((aws[i] for i in slots), key=lambda a: a.get_name(), reverse=GATHER_REVERSED)
+    out = list(aws)
+    for i, a in zip(slots, ordered):
+        out[i] = a
+    return _real_gather(*out, return_exceptions=return_exceptions)
 
 
 def install_gather_wrapper():
